@@ -64,6 +64,14 @@ func RunOne(t *testing.T, prop *Property, tier string, tp *Tape, keepLog bool) (
 				}
 			}
 			w.pickStrategy()
+			// which timer-channel semantics corebgp runs under: Go >= 1.23 (native) or
+			// the emulated pre-1.23 ones a main module declaring go < 1.23 would get
+			if w.Draw(2, "timer-semantics") == 1 {
+				s.OldTimers = true
+				w.Probe("timer-semantics:pre-go1.23")
+			} else {
+				w.Probe("timer-semantics:go1.23+")
+			}
 			s.Spawn("root", "root", func() {
 				prop.Run(w)
 				w.rootDone = true
